@@ -107,6 +107,18 @@ CLAIMED['C16'] = dict(
          'np.allclose. NaN excluded (NaN != NaN). Two genuine defects fixed (0-d iteration TypeError, scalar/sequence broadcast).',
     technique='Coq proof (induction over the query, Q arithmetic) + refutation witness + in-Coq correspondence evaluation')
 
+CLAIMED['C06'] = dict(
+    text='Coq theorem check_if_main_exact: for EVERY descriptor of an HDF5 object (any link kinds, ranks, shapes, attribute states) the model of '
+         'check_if_main + validate_anc_dset_attrs answers True iff all structural rules of a Main dataset hold (soundness and completeness '
+         'against an order-independent definition), hence it is total; the wrapper is constructed exactly for those objects (TypeError '
+         'otherwise) and the recursive search returns exactly them for any tree. The model is compared inside coqc with the real function on every '
+         'single corruption (82 kinds) and sampled pairs via an abstraction function file -> descriptor; USIDataset() and get_all_main on mixed '
+         'trees are judged by an independent oracle.',
+    design='5/C06',
+    note='Trusted: Coq kernel, the abstraction function (raw h5py) and h5py reference resolution. Attribute values that are a single string '
+         'instead of a list are outside the generator. One genuine defect (five raise paths + rank-3 acceptance) found and fixed.',
+    technique='Coq proof (boolean case analysis: soundness + completeness) + in-Coq correspondence evaluation')
+
 NOT_YET = {}
 
 TITLES = {}
